@@ -14,6 +14,16 @@ GRADES = {  # specification data, mirrors Chokan.Lemmas.Dic.gradeTable
     "ラ": ["ら", "り", "る", "れ", "ろ"], "ワ": ["わ", "いゐ", "う", "えゑ", "おを"],
 }
 EUPHONIC = "っんい"
+# the euphonic heads a verb of this class and row has (mirrors Chokan.Lemmas.Dic.euphonicOf): イ音便 カ/ガ, 促音便 タ/ラ/ワ, 撥音便 ナ/バ/マ
+EUPHONIC_OF = {"カ": "い", "ガ": "い", "タ": "っ", "ラ": "っ", "ワ": "っ", "ナ": "ん", "バ": "ん", "マ": "ん"}
+
+
+def euphonic_of(cls, row, rd):
+    if cls != "godan":
+        return ""
+    if row == "カ" and rd.endswith("い"):
+        return "っ"          # 行く: after a stem reading in い the カ row takes っ instead of い
+    return EUPHONIC_OF.get(row, "")
 HIRA = [chr(c) for c in range(0x3041, 0x3097)]
 
 
@@ -60,6 +70,11 @@ def gen(run):
                 st = rng.pick(stems)
                 reqs.append(("conj %s | %s | %s" % (tok(cls, row), cl.cps(st), cl.cps(rd)),
                              {"op": "conj", "cls": cls, "row": row, "stem": st, "rd": rd}))
+    for cls in CLASSES:
+        for row in list(ROWS):
+            for rd in ["あい", "およ", "かっ", "しん", "い", "っ", "ん", "いい"]:
+                reqs.append(("conj %s | %s | %s" % (tok(cls, row), cl.cps("相"), cl.cps(rd)),
+                             {"op": "conj", "cls": cls, "row": row, "stem": "相", "rd": rd}))
     for _ in range(4000 if thorough else 300):
         cls, row = rng.pick(CLASSES), rng.pick(rows)
         st = "".join(rng.pick("書見食x漢") for _ in range(rng.below(3)))
@@ -149,9 +164,9 @@ def oracle(run, reqs, impl):
                 okuri.append(ok)
                 if ok and row in GRADES:
                     n["row"] += 1
-                    if ok[0] not in "".join(GRADES[row]) and ok[0] not in EUPHONIC:
+                    if ok[0] not in "".join(GRADES[row]) and ok[0] not in euphonic_of(cls, row, rd):
                         fails.append(("row", {"kind": "row", "cls": cls, "row": row},
-                                      {"class": cls, "row": row, "okurigana": ok}))
+                                      {"class": cls, "row": row, "stem": st, "stem_reading": rd, "okurigana": ok, "form": [s2, r2]}))
             if row in GRADES and forms:
                 n["core"] += 1
                 if not core_ok(cls, row, okuri):
